@@ -19,8 +19,10 @@
 
     Written after the code that exists, including behaviour the property does not claim
     (in-place mutation of the live tree, error kinds of ill-formed lookups, a modifier
-    that returns nothing).  The machine before the fix (functools.lru_cache keyed by
-    system and instant, never cleared) is the mode [Lru] of the same definitions.
+    that returns nothing).  The state is a WORLD of systems (a baseline, reforms over it,
+    reforms of reforms); every operation names the system it is applied to.  The machine
+    before the fix (functools.lru_cache keyed by system and instant, never cleared) is
+    the mode [Lru] of the same definitions, the cache-free reference the mode [NoCache].
     No proofs here.
 
     Trees, views and histories are those of Param.v; dates are ordinals. *)
@@ -439,24 +441,34 @@ Definition read_traced (ov : option view) (p : path) (t : tail) : res rd * tlog 
       end
   end.
 
-(** ** The system and its cache *)
+(** ** The systems and their caches *)
 
-(** [s_rid]: identity of the object bound to [parameters]; [s_base]: the baseline's
-    [parameters] (identity and content) when the system is a reform; [s_cache]:
-    _parameters_at_instant_cache; [s_cached]: identity kept in _cached_parameters. *)
+(** One tax-benefit system.  [s_rid]: identity of the object bound to [parameters] (a
+    reform starts with the very object of its baseline); [s_base]: for a reform, which
+    system of the world is its baseline; [s_cache]: _parameters_at_instant_cache;
+    [s_cached]: identity kept in _cached_parameters.
+
+    Reform.__init__ binds the reform's _parameters_at_instant_cache to the dict OBJECT of
+    its baseline.  The reform has no _cached_parameters of its own, so its first read
+    rebinds the attribute to a new dict before anything is looked up: the shared object
+    is never read through the reform, and each system has its own [s_cache] here. *)
 Record sys := mk_sys {
-  s_base : option (nat * tree);
+  s_base : option nat;
   s_root : tree;
   s_rid : nat;
-  s_next : nat;
   s_cache : list (Z * option view);
   s_cached : option nat }.
 
-Definition init (t : tree) : sys := mk_sys None t 0 1 [] None.
+(** All the systems that exist (a baseline, its reforms, reforms of reforms, in order of
+    creation) and the next fresh object identity. *)
+Record world := mk_world { w_sys : list sys; w_next : nat }.
+
+Definition init (t : tree) : world := mk_world [mk_sys None t 0 [] None] 1.
 
 Inductive mode :=
   | Fixed     (* the code as it is *)
-  | Lru.      (* before the fix: functools.lru_cache on (system, instant), never cleared *)
+  | Lru       (* before the fix: functools.lru_cache on (system, instant), never cleared *)
+  | NoCache.  (* the reference: no memo at all, every read evaluates the current tree *)
 
 Fixpoint assoc {A} (i : Z) (l : list (Z * A)) : option A :=
   match l with
@@ -465,7 +477,7 @@ Fixpoint assoc {A} (i : Z) (l : list (Z * A)) : option A :=
   end.
 
 Definition set_cache (s : sys) (c : list (Z * option view)) (k : option nat) : sys :=
-  mk_sys (s_base s) (s_root s) (s_rid s) (s_next s) c k.
+  mk_sys (s_base s) (s_root s) (s_rid s) c k.
 
 (** "The cache is only valid for the parameter tree it was built from." *)
 Definition validate (s : sys) : sys :=
@@ -491,6 +503,7 @@ Definition get_parameters_at_instant (m : mode) (s : sys) (i : Z) : sys * option
       | None => let v := at_instant (s_root s) i in
                 (set_cache s ((i, v) :: s_cache s) (s_cached s), v)
       end
+  | NoCache => (s, at_instant (s_root s) i)
   end.
 
 (** *** Writing *)
@@ -527,7 +540,7 @@ Fixpoint apply_modifier (t : tree) (ups : list (path * upd Z)) : res tree :=
 Inductive op :=
   | Read (r : route) (p : path) (i : Z) (t : tail)
   | Load (t : tree)              (* load_parameters(directory), or system.parameters = node *)
-  | BeginReform                  (* Reform(system): what follows runs on the reform *)
+  | NewReform                    (* SomeReform(system): a new system is added to the world *)
   | Modify (ups : list (path * upd Z)) (returns_node : bool)   (* modify_parameters(modifier) *)
   | Poke (p : path) (u : upd Z). (* system.parameters.p.update(...): in place, not a documented route *)
 
@@ -535,57 +548,87 @@ Definition ans := (res rd * tlog)%type.
 Definition done : ans := (Ok RNone, []).
 Definition failed (e : err) : ans := (Err e, []).
 
-Definition with_root (m : mode) (s : sys) (t : tree) (clear : bool) : sys :=
-  mk_sys (s_base s) t (s_next s) (S (s_next s))
-         (match m with Fixed => if clear then [] else s_cache s | Lru => s_cache s end)
+Fixpoint replace {A} (k : nat) (x : A) (l : list A) : list A :=
+  match l, k with
+  | [], _ => []
+  | _ :: r, O => x :: r
+  | y :: r, S k' => y :: replace k' x r
+  end.
+
+(** a read by one route on one system *)
+Definition read_sys (m : mode) (s : sys) (r : route) (p : path) (i : Z) (t : tail) : sys * ans :=
+  match r with
+  | RDirect => (s, (read_direct (s_root s) p i t, []))
+  | RSystem | RFormula false =>
+      let '(s', ov) := get_parameters_at_instant m s i in (s', (read_view ov p t, []))
+  | RFormula true =>
+      let '(s', ov) := get_parameters_at_instant m s i in (s', read_traced ov p t)
+  end.
+
+(** the attribute [parameters] is bound to a new object; modify_parameters also rebinds
+    _parameters_at_instant_cache to an empty dict ([clear]); the lru memo is untouched *)
+Definition new_root (m : mode) (s : sys) (t : tree) (id : nat) (clear : bool) : sys :=
+  mk_sys (s_base s) t id
+         (match m with Lru => s_cache s | _ => if clear then [] else s_cache s end)
          (s_cached s).
 
-Definition step (m : mode) (s : sys) (o : op) : sys * ans :=
-  match o with
-  | Read RDirect p i t => (s, (read_direct (s_root s) p i t, []))
-  | Read RSystem p i t | Read (RFormula false) p i t =>
-      let '(s', ov) := get_parameters_at_instant m s i in (s', (read_view ov p t, []))
-  | Read (RFormula true) p i t =>
-      let '(s', ov) := get_parameters_at_instant m s i in (s', read_traced ov p t)
-  | Load t => (with_root m s t false, done)
-  | BeginReform =>
-      (* Reform.__init__: same tree object; the new object has no _cached_parameters
-         of its own (and no entry in the lru_cache) *)
-      (mk_sys (Some (s_rid s, s_root s)) (s_root s) (s_rid s) (s_next s)
-              (match m with Fixed => s_cache s | Lru => [] end) None, done)
-  | Modify ups returns_node =>
-      match s_base s with
-      | None => (s, failed EOther)          (* only reforms have modify_parameters *)
-      | Some (_, b) =>
-          match apply_modifier b ups with
-          | Err e => (s, failed e)
+Definition set_root (s : sys) (t : tree) : sys :=
+  mk_sys (s_base s) t (s_rid s) (s_cache s) (s_cached s).
+
+(** One operation on system number [k] of the world. *)
+Definition wstep (m : mode) (w : world) (ko : nat * op) : world * ans :=
+  let '(k, o) := ko in
+  match nth_error (w_sys w) k with
+  | None => (w, failed EOther)
+  | Some s =>
+      match o with
+      | Read r p i t =>
+          let '(s', a) := read_sys m s r p i t in
+          (mk_world (replace k s' (w_sys w)) (w_next w), a)
+      | Load t =>
+          (mk_world (replace k (new_root m s t (w_next w) false) (w_sys w)) (S (w_next w)), done)
+      | NewReform =>
+          (* Reform.__init__: the same tree object; no _cached_parameters of its own
+             (and, before the fix, no entry in the lru_cache for the new object) *)
+          (mk_world (w_sys w ++ [mk_sys (Some k) (s_root s) (s_rid s)
+                                         (match m with Lru => [] | _ => s_cache s end) None])
+                    (w_next w), done)
+      | Modify ups returns_node =>
+          (* deep copy of the BASELINE's current tree, modifier, reassignment *)
+          match s_base s with
+          | None => (w, failed EOther)          (* only reforms have modify_parameters *)
+          | Some b =>
+              match nth_error (w_sys w) b with
+              | None => (w, failed EOther)
+              | Some sb =>
+                  match apply_modifier (s_root sb) ups with
+                  | Err e => (w, failed e)
+                  | Ok t' =>
+                      if returns_node
+                      then (mk_world (replace k (new_root m s t' (w_next w) true) (w_sys w))
+                                     (S (w_next w)), done)
+                      else (w, done)            (* "return ValueError(...)": nothing happens *)
+                  end
+              end
+          end
+      | Poke p u =>
+          (* every system bound to the same object sees the mutation; no cache is told *)
+          match tree_update (s_root s) p u with
+          | Err e => (w, failed e)
           | Ok t' =>
-              if returns_node then (with_root m s t' true, done)
-              else (s, done)                (* "return ValueError(...)": nothing happens *)
+              (mk_world (map (fun x => if Nat.eqb (s_rid x) (s_rid s) then set_root x t' else x)
+                             (w_sys w)) (w_next w), done)
           end
       end
-  | Poke p u =>
-      match tree_update (s_root s) p u with
-      | Err e => (s, failed e)
-      | Ok t' =>
-          let base' := match s_base s with
-                       | Some (k, b) => if Nat.eqb k (s_rid s) then Some (k, t') else Some (k, b)
-                       | None => None
-                       end in
-          (mk_sys base' t' (s_rid s) (s_next s) (s_cache s) (s_cached s), done)
-      end
   end.
 
-Fixpoint run (m : mode) (s : sys) (ops : list op) : list ans :=
+Fixpoint wrun (m : mode) (w : world) (ops : list (nat * op)) : list ans :=
   match ops with
   | [] => []
-  | o :: r => let '(s', a) := step m s o in a :: run m s' r
+  | o :: r => let '(w', a) := wstep m w o in a :: wrun m w' r
   end.
 
-(** ** The reference: the same operations on a system WITHOUT any cache - every read
-    evaluates the current tree at the date.  ([views_agree] in props/C07.v: the machine
-    above gives the same answers on every sequence of documented operations.) *)
-
+(** What a read must give: computed from [at_instant] of the tree the system holds. *)
 Definition read_spec (root : tree) (r : route) (p : path) (i : Z) (t : tail) : ans :=
   match r with
   | RDirect => (read_direct root p i t, [])
@@ -593,32 +636,4 @@ Definition read_spec (root : tree) (r : route) (p : path) (i : Z) (t : tail) : a
   | RFormula true => read_traced (at_instant root i) p t
   end.
 
-Definition ref_step (st : option tree * tree) (o : op) : (option tree * tree) * ans :=
-  let '(base, root) := st in
-  match o with
-  | Read r p i t => (st, read_spec root r p i t)
-  | Load t => ((base, t), done)
-  | BeginReform => ((Some root, root), done)
-  | Modify ups returns_node =>
-      match base with
-      | None => (st, failed EOther)
-      | Some b =>
-          match apply_modifier b ups with
-          | Err e => (st, failed e)
-          | Ok t' => if returns_node then ((base, t'), done) else (st, done)
-          end
-      end
-  | Poke p u =>
-      match tree_update root p u with
-      | Err e => (st, failed e)
-      | Ok t' => ((base, t'), done)      (* not meaningful for reforms sharing their baseline's tree *)
-      end
-  end.
-
-Fixpoint ref_run (st : option tree * tree) (ops : list op) : list ans :=
-  match ops with
-  | [] => []
-  | o :: r => let '(st', a) := ref_step st o in a :: ref_run st' r
-  end.
-
-Definition documented (o : op) : bool := match o with Poke _ _ => false | _ => true end.
+Definition documented (o : nat * op) : bool := match snd o with Poke _ _ => false | _ => true end.
